@@ -328,9 +328,14 @@ func sameStrings(a, b []string) (ok bool) {
 
 // judge compares the response raw with what the bytes sent imply.  It returns
 // the decoded response (nil if it does not parse) and the problems found.
-func judge(e *expectation, sent, raw []byte) (resp *dns.Msg, ps []problem) {
-	if s := findStale(raw); s != "" {
-		ps = append(ps, problem{"stale-bytes", "the response contains bytes of other traffic at " + s})
+// checkStale is off when the judged message is itself written in the alphabet
+// of other traffic (its content is then checked by the reference comparison,
+// every such message having a distinct name).
+func judge(e *expectation, sent, raw []byte, checkStale bool) (resp *dns.Msg, ps []problem) {
+	if checkStale {
+		if s := findStale(raw); s != "" {
+			ps = append(ps, problem{"stale-bytes", "the response contains bytes of other traffic at " + s})
+		}
 	}
 
 	if len(raw) < 2 || len(sent) < 2 || raw[0] != sent[0] || raw[1] != sent[1] {
